@@ -27,6 +27,52 @@ theorem rescale_pixelscale (px s : K) (hs : s ≠ 0) : pixelscale px s = px / s 
 theorem resample_scale (px new : K) (hp : px ≠ 0) (hn : new ≠ 0) : pixelscale px (resampleScale px new) = new := by
   unfold pixelscale resampleScale; field_simp
 
+/-- per axis: a plane sampled at `(px0, px1)` comes back at `(px0/s, px1/s)`; a plane without pixel scale stays without -/
+theorem rescale_pixelscale_per_axis (px0 px1 s : K) (hs : s ≠ 0) :
+    planePixelscale (some (px0, px1)) s = some (px0 / s, px1 / s) ∧
+    (∀ q, planePixelscale (some (px0, px1)) s = some q → q.1 * s = px0 ∧ q.2 * s = px1) ∧
+    planePixelscale (none : Option (K × K)) s = none := by
+  refine ⟨rfl, ?_, rfl⟩
+  intro q hq
+  simp only [planePixelscale, Option.map_some, Option.some.injEq] at hq
+  subst hq
+  constructor <;> field_simp
+
+/-- resampling is refused exactly for planes without pixel scale (ValueError) and non-uniformly sampled planes
+(NotImplementedError); otherwise it is the rescale by `px/new` and returns the requested pixel scale on both axes -/
+theorem resample_guards (px : Option (K × K)) (new : K) (hn : new ≠ 0) :
+    (resample px new = .valueError ↔ px = none) ∧
+    (resample px new = .notImplemented ↔ ∃ p, px = some p ∧ p.1 ≠ p.2) ∧
+    (∀ p s, px = some p → p.1 ≠ 0 → resample px new = .scale s → planePixelscale px s = some (new, new)) := by
+  cases px with
+  | none => simp [resample]
+  | some p =>
+    by_cases h : p.1 = p.2
+    · refine ⟨by simp [resample, h], by simp [resample, h], ?_⟩
+      intro p' s hp hp0 hs
+      simp only [Option.some.injEq] at hp; subst hp
+      simp only [resample, h, if_true, Resample.scale.injEq] at hs
+      subst hs
+      have hp2 : p.2 ≠ 0 := h ▸ hp0
+      simp only [planePixelscale, Option.map_some, Option.some.injEq, Prod.mk.injEq, resampleScale]
+      rw [← h]; constructor <;> field_simp
+    · exact ⟨by simp [resample, h], by simp [resample, h], by intro p' s hp _ hs; simp [resample, h] at hs⟩
+
+/-- the amplitude is divided by `s` exactly when it is an array (so that the `s²`-times more samples carry the same power);
+a scalar amplitude or OPD is passed through -/
+theorem amplitude_factor (s : K) :
+    amplitudeFactor 2 s = 1 / s ∧ amplitudeFactor 0 s = 1 ∧ interpolated 2 = true ∧ interpolated 0 = false ∧ interpolated 1 = false := by
+  simp [amplitudeFactor, interpolated]
+
+/-- the interpolation grid of `util.rescale` is uniform with spacing `1/s` and maps the centre of the output grid onto the
+centre of the input grid (`(k − S/2)/s + n/2`): sample `k+1` is `1/s` after sample `k`, and for even `S = 2h` sample `h` sits at `n/2` -/
+theorem coord_grid (S n k h : Int) (s : K) (hs : s ≠ 0) :
+    coord (fun k => (k : K)) (2 : K) S n s (k + 1) - coord (fun k => (k : K)) (2 : K) S n s k = 1 / s ∧
+    (S = 2 * h → coord (fun k => (k : K)) (2 : K) S n s h = (n : K) / 2) := by
+  constructor
+  · unfold coord; push_cast; field_simp; ring
+  · intro hS; unfold coord; rw [hS]; push_cast; field_simp; ring
+
 /-- the rescaled arrays have `⌈n·s⌉` samples: the smallest integer count whose span covers the `n·s` new-grid samples -/
 theorem rescale_shape (n : Int) (s : K) :
     outShape Int.ceil (fun k => (k : K)) n s = ⌈(n : K) * s⌉ ∧
